@@ -95,7 +95,7 @@ def run(ctx):
     allN = {"ExpI": _set(ALL_EXP), "ExpR": _set(ALL_EXP), "Pros": _set(ALL_PRO)}
     invN = "TypeOKN AuthN ExpectN NoAlteredN AgreeN"
     rot = ctx.seed % 3
-    sub = {"ExpI": _set(("match", ALL_EXP[1 + rot])), "ExpR": _set(ALL_EXP), "Pros": _set(("none", ALL_PRO[1 + (rot + 1) % 3]))}
+    sub = {"ExpI": _set((ALL_EXP[ctx.seed % 4],)), "ExpR": _set(ALL_EXP), "Pros": _set(("none", ALL_PRO[1 + (rot + 1) % 3]))}
     if thorough:
         jobs = [
             # N: every configuration, two attacker actions per handshake: invariants + every transition printed
@@ -105,8 +105,8 @@ def run(ctx):
     else:
         jobs = [
             # N: every configuration, two attacker actions: invariants only; printed: one action in every
-            # configuration, two actions in 16 of the 64 configurations (rotating with the seed; the responder's
-            # setting, which decides the two-step impersonation of an initiator, is always crossed in full)
+            # configuration, two actions in 8 of the 64 configurations (rotating with the seed; the responder's
+            # setting, which decides the two-step impersonation of an initiator towards it, is always crossed in full)
             (ctx, "N-all2", _cfg("N", dict(allN, MaxEdits=2), inv=invN), None),
             (ctx, "N-edges2", _cfg("N", dict(sub, MaxEdits=2), inv=invN, edges=True), None),
             (ctx, "N-edges1", _cfg("N", dict(allN, MaxEdits=1), inv=invN, edges=True), None),
@@ -132,8 +132,8 @@ def run(ctx):
     goenv.make_overlay = lambda _ctx, _p=ov: _p
     tpool = cf.ThreadPoolExecutor(max_workers=3)
     builds = [tpool.submit(goenv.go_test, ctx, p, "^$", timeout=1200) for p in (PKG_N, PKG_T, PKG_S)]
-    # at most 4 TLC workers at a time (thorough: the deep run takes 3, so the pool shrinks to 2 single-worker runs... the
-    # deep run is started first and the others follow in a pool of one)
+    # at most 4 TLC workers at a time (thorough: the deep run takes 3 and is started first; the others follow
+    # one at a time next to it)
     if thorough:
         with cf.ProcessPoolExecutor(max_workers=2) as ex:
             fdeep = ex.submit(_job, jobs[1])
@@ -202,15 +202,18 @@ def run(ctx):
     ft = tpool.submit(goenv.run_harness, ctx, PKG_T, "^TestVerifC01TLSReplay$", inputs=beh, timeout=1500)
     fs = tpool.submit(goenv.run_harness, ctx, PKG_S, "^TestVerifC01SwarmReplay$", inputs=beh, timeout=1500)
     try:
-        rn, rt, rs = fn.result(), ft.result(), fs.result()
+        rs = fs.result()
+        # real swarms over loopback TCP (Noise, TLS) and QUIC: truthful and misdirected dials
+        re_ = goenv.run_harness(ctx, PKG_S, "^TestVerifC01EndToEnd$", timeout=900)
+        rn, rt = fn.result(), ft.result()
     finally:
         tpool.shutdown(wait=True)
     div = 0
-    for res, what in ((rn, "noise"), (rt, "tls"), (rs, "swarm")):
+    for res, what in ((rn, "noise"), (rt, "tls"), (rs, "swarm"), (re_, "e2e")):
         if res["_rc"] != 0:
             raise MachineryError("harness test %s failed:\n%s" % (what, res["_log"][-3000:]))
         div += classify_mismatches(ctx, res, what)
-    xn, xt, xs = rn.get("extra", {}), rt.get("extra", {}), rs.get("extra", {})
+    xn, xt, xs, xe = rn.get("extra", {}), rt.get("extra", {}), rs.get("extra", {}), re_.get("extra", {})
     if rn["replayed"] < len(wN):
         raise MachineryError("noise replay executed %d behaviours for %d walks" % (rn["replayed"], len(wN)))
     if rt["replayed"] < len(wT) or rs["replayed"] < len(wS):
@@ -233,9 +236,13 @@ def run(ctx):
         for need in ("S.returned", "S.refused", "S.wrong-closed"):
             if not xs.get(need):
                 raise MachineryError("vacuous: swarm replay counter %s is zero" % need)
+        for combo in ("tcp.noise", "tcp.tls", "quic.tls13"):
+            for kind in ("connected", "refused"):
+                if not xe.get("E.%s.%s" % (kind, combo)):
+                    raise MachineryError("vacuous: no %s dial over %s in the end-to-end run (%s)" % (kind, combo, xe))
 
     cov = evidence.mc_coverage(
-        states, trans, rn["replayed"] + rt["replayed"] + rs["replayed"],
+        states, trans, rn["replayed"] + rt["replayed"] + rs["replayed"] + re_["replayed"],
         (rn.get("samples") or [])[:1] + (rt.get("samples") or [])[:1] + (rs.get("samples") or [])[:1],
         exhaustive=True,
         checker_cmd="tlc C01_MC.tla (template C01_MC.cfg; parts N, T, S; broken variants %s must violate the invariants)"
@@ -253,6 +260,7 @@ def run(ctx):
                     "counters": {k: v for k, v in sorted(xt.items()) if k.startswith("T.")}},
         replay_swarm={"runs": rs["replayed"], "steps": rs["steps"], "distinct": rs["distinct"],
                       "counters": {k: v for k, v in sorted(xs.items()) if k.startswith("S.")}},
+        end_to_end={"dials": re_["replayed"], "counters": {k: v for k, v in sorted(xe.items()) if k.startswith("E.")}},
         divergences_L2=div, notes=ctx.notes[:12])
     return {"level": "model_checking", "coverage": cov, "assumptions": [
         "symbolic perfect cryptography in the model (DH, AEAD, signatures are terms); flynn/noise, crypto/tls, crypto/x509, x/crypto and the signature primitives are trusted - the byte-level runs exercise them only on the enumerated positions",
